@@ -42,7 +42,11 @@ EXPLANATION = (
     "implementation is compared with the FAITHFUL model (defects included) and classified against an independent reference "
     "(proved-exact fairref + brute force fair set, brute-force CGP semantics harness/ref.py): equal to the reference = agrees; "
     "different from the reference but equal to the faithful model = known finding KF-C15-a/b; different from both = VIOLATION; "
-    "soundness of the fair set, absence of exceptions, K unchanged, result a subset of the states and F=None are asserted outright.")
+    "soundness of the fair set, absence of exceptions, K unchanged, result a subset of the states and F=None are asserted outright. "
+    "The same classification is applied to the formula passed as TEXT with F, to structures whose states are arbitrary (also mutually "
+    "unorderable) hashable objects, to one formula OBJECT re-used on structures whose fresh fair label differs, to get_fair_states asked "
+    "again after the caller edited the returned set, and (against closed-form answers outside both findings) to structures with "
+    "thousands of states.")
 
 P_, Q_ = ('ap', 'p'), ('ap', 'q')
 OPS1 = 'XFG'
@@ -226,6 +230,112 @@ def rename_kd(kd, m):
     return {'S': kd['S'], 'S0': kd['S0'], 'R': kd['R'], 'L': {s: [m.get(a, a) for a in ls] for s, ls in kd['L'].items()}}
 
 
+# ----------------------------------------------------------------------------------------------
+# state NAMES: the harness keeps every structure over the ints 0..n-1 (reference, brute force, model); kd['names'] (optional)
+# lists, per int state, the Python object that plays that state in the library call.  Any hashable object is a legal state,
+# mutually unorderable ones included.  With F the library works on K.clone() and KF-C15-a looks at the first-yielded node
+# of an SCC, so the faithful model is always given the presentation READ BACK from a clone of the live object.
+# ----------------------------------------------------------------------------------------------
+def dec_name(spec):
+    t = spec[0]
+    if t in ('i', 's', 'x'):
+        return spec[1]
+    if t == 't':
+        return tuple(dec_name(y) if isinstance(y, list) else y for y in spec[1])
+    if t == 'f':
+        return frozenset(spec[1])
+    if t == 'y':
+        return spec[1].encode()
+    raise ValueError(spec)
+
+
+# pairwise different as Python objects (no 1 / 1.0 / True); several pairs collide under str() or hash().  None is NOT among
+# them: Kripke.labels(state=None) documents None as 'no state given', so None cannot name a state
+MIXED_NAMES = [['i', 0], ['s', 'a'], ['t', [1, 2]], ['i', 1], ['s', '1'], ['t', [None]], ['f', [1]], ['t', []], ['s', ''], ['i', -1],
+               ['x', 0.5], ['s', '(1, 2)'], ['i', 2 ** 61 - 1], ['t', ['a', 0]], ['s', 'fair'], ['y', 'a'], ['i', -2], ['s', '0'],
+               ['t', [['t', [0]]]], ['s', 'None'], ['i', 8], ['x', -1.5], ['f', []], ['s', 'b']]
+INT_NAMES = [-3, -2, -1, 7, 8, 15, 16, 23, 24, 31, 32, 64, 100, 1024, 2 ** 61 - 1, 2 ** 61, 2 ** 61 + 7, 10 ** 6 + 7, 33, 40, 48, 56]
+STR_NAMES = ['s%d' % i for i in range(12)] + list('abcdefgh') + ['0', '1', '2', '10', 'fair', 'fair0', '', ' ', 'S', 'é']
+NAME_STYLES = ['mixed', 'mixed', 'mixed', 'str', 'int']
+
+
+def make_names(rng, n, style):
+    if style == 'int':
+        return [['i', v] for v in rng.sample(INT_NAMES, n)]
+    if style == 'str':
+        return [['s', v] for v in rng.sample(STR_NAMES, n)]
+    names = rng.sample(MIXED_NAMES, n)
+    if n >= 2 and not any(x[0] in ('i', 'x') for x in names):          # at least one int next to the non-ints
+        names[rng.randrange(n)] = ['i', rng.choice([0, 1, -1, 8])]
+    return names
+
+
+FOREIGN_STATE = ('#not-a-state',)
+
+
+def name_maps(kd):
+    """-> (nm, inv): int state -> object of the library call, and back (identity without kd['names'])"""
+    if not kd.get('names'):
+        return (lambda s: s), (lambda o: o)
+    succ = succ_of(kd)
+    order = sorted(succ)
+    objs = {s: dec_name(kd['names'][i]) for i, s in enumerate(order)}
+    back = {o: s for s, o in objs.items()}
+    if len(back) != len(objs):
+        raise RuntimeError('machinery: state names are not pairwise different: %r' % (kd['names'],))
+    return (lambda s: objs.get(s, FOREIGN_STATE + (s,))), (lambda o: back[o])
+
+
+def build_K(kd):
+    if not kd.get('names'):
+        return kd_py(kd)
+    nm, _ = name_maps(kd)
+    return mk_py_kripke([nm(s) for s in kd['S']], [nm(s) for s in kd['S0']], [(nm(a), nm(b)) for a, b in kd['R']],
+                        {nm(s): list(ls) for s, ls in kd['L'].items()})
+
+
+def kdj(kd):
+    j = kd_json(kd)
+    if kd.get('names'):
+        j['names'] = kd['names']
+    return j
+
+
+def kd_from(j):
+    kd = kd_from_json(j)
+    if j.get('names'):
+        kd['names'] = j['names']
+    return kd
+
+
+TEXTOP = {'not': 'not', 'or': 'or', 'and': 'and', 'imp': '-->'}
+
+
+def ftext(f):
+    """concrete syntax accepted by the three parsers (every non-leaf operand parenthesised)"""
+    t = f[0]
+    if t in ('true', 'false'):
+        return t
+    if t == 'ap':
+        return f[1]
+
+    def w(g):
+        return ftext(g) if g[0] in ('true', 'false', 'ap') else '(' + ftext(g) + ')'
+    op = TEXTOP.get(t, t)
+    if t in UNARY:
+        return op + ' ' + w(f[1])
+    return (' %s ' % op).join(w(g) for g in f[1:])
+
+
+_PARSERS = {}
+
+
+def shared_parser(logic):
+    if logic not in _PARSERS:
+        _PARSERS[logic] = lang_module(logic).Parser()
+    return _PARSERS[logic]
+
+
 def kfa_free_case(rng, n):
     """a random (structure, F) on which KF-C15-a cannot bite - every truly fair non-trivial SCC has >= 2 nodes, all with self
     loops, so the coded `len(scc)==1 or no self loop` test accepts it whatever node is yielded first - and whose true fair set
@@ -350,7 +460,7 @@ def F_intact(Fa, F):
 # ----------------------------------------------------------------------------------------------
 # the implementation side (runs in worker processes; pure function of the group description)
 # ----------------------------------------------------------------------------------------------
-def canon(r, K):
+def canon(r, K, inv=None):
     if r[0] != 'ok':
         return r
     v = r[1]
@@ -358,17 +468,34 @@ def canon(r, K):
         return ('err', 'other:not-a-set:' + type(v).__name__)
     if not v <= set(K.states()):
         return ('err', 'other:not-a-subset-of-states:' + repr(sorted(map(repr, v))))
-    return ('ok', sorted(v))
+    return ('ok', sorted(v) if inv is None else sorted(inv(s) for s in v))
 
 
-def impl_call(logic, K, f, mode, F=None, objlang=None):
+def impl_call(logic, K, f, mode, F=None, objlang=None, inv=None, text=None):
+    """text: None = the formula is passed as an OBJECT; 'shared' / 'default' = as a STRING (with an explicit parser object /
+    with the parser the entry point makes itself)"""
     L = lang_module(logic)
     OL = lang_module(objlang or logic)
+    arg = to_py(f, OL) if text is None else ftext(f)
+    kw = {}
+    if text == 'shared':
+        kw['parser'] = shared_parser(logic)
     if mode == 'plain':
-        r = call(lambda: L.modelcheck(K, to_py(f, OL)))
+        r = call(lambda: L.modelcheck(K, arg, **kw))
     else:
-        r = call(lambda: L.modelcheck(K, to_py(f, OL), F=F))
-    return canon(r, K)
+        r = call(lambda: L.modelcheck(K, arg, F=F, **kw))
+    return canon(r, K, inv)
+
+
+def text_ok(logic, f):
+    """the text of f parses back to f in the called logic (otherwise the text channel is not asked: machinery, not the property)"""
+    return call(lambda: tree_of(shared_parser(logic)(ftext(f)))) == ('ok', f)
+
+
+def mcmd(logic, ks, f, Fs=None):
+    if Fs is None:
+        return ['ctl', ks, fsx(f)] if logic == 'CTL' else ['ltl', ks, fsx(f)] if logic == 'LTL' else ['ctls', 'CTLS', ks, fsx(f)]
+    return [{'CTL': 'ctlf', 'LTL': 'ltlf', 'CTLS': 'ctlsf'}[logic], ks, fsx(f), Fs]
 
 
 def snap_diff(a, b):
@@ -377,11 +504,30 @@ def snap_diff(a, b):
     return {'graph_changed': a[0] != b[0], 'S0_changed': a[1] != b[1], 'labels_changed': a[2] != b[2], 'labels_added': added}
 
 
+def edit_returned_set(v, how):
+    """what a caller may do with HIS result set"""
+    if how == 'clear':
+        v.clear()
+    elif how == 'half':
+        for s in list(v)[::2]:
+            v.discard(s)
+    else:
+        v.add(('#added-by-the-caller',))
+
+
 def do_group(g):
-    """g = {'kd', 'Fs': [(F, kind)], 'forms': [(logic, f)], 'bad': [(logic, f)]}"""
+    """g = {'kd', 'Fs': [(F, kind)], 'forms': [(logic, f)], 'bad': [(logic, f)], 'text': {index of a form: 'shared'|'default'}}
+    or a group of another stream (g['stream'] = 'reuse' | 'long')"""
+    if g.get('stream') == 'reuse':
+        return do_reuse(g)
+    if g.get('stream') == 'long':
+        return do_long(g)
     kd = g['kd']
-    box = {'K': kd_py(kd)}
+    nm, inv = name_maps(kd)
+    named = bool(kd.get('names'))
+    box = {'K': build_K(kd)}
     box['snap'] = kripke_snapshot(box['K'])
+    text = {int(i): m for i, m in (g.get('text') or {}).items()}
 
     def guarded(fn):
         """run fn(K); report whether K is unchanged; rebuild K if it was modified"""
@@ -391,55 +537,291 @@ def do_group(g):
         if s1 == box['snap']:
             return v, None
         d = snap_diff(box['snap'], s1)
-        box['K'] = kd_py(kd)
+        box['K'] = build_K(kd)
         box['snap'] = kripke_snapshot(box['K'])
         return v, d
 
     res = {'kd': kd, 'plain': [], 'perF': []}
     for (logic, f) in g.get('forms', []):
-        r_plain, d1 = guarded(lambda K: impl_call(logic, K, f, 'plain'))
-        r_none, d2 = guarded(lambda K: impl_call(logic, K, f, 'F', None))
+        r_plain, d1 = guarded(lambda K: impl_call(logic, K, f, 'plain', inv=inv))
+        r_none, d2 = guarded(lambda K: impl_call(logic, K, f, 'F', None, inv=inv))
         res['plain'].append({'logic': logic, 'f': f, 'r_plain': r_plain, 'r_none': r_none, 'changed': d1 or d2,
-                             'ref': sorted(ref_check(kd, ref_form(f))), 'cmd': model_cmd(logic, box['K'], f)})
-    for (F, kind) in g['Fs']:
+                             'ref': sorted(ref_check(kd, ref_form(f))), 'cmd': mcmd(logic, kripke_sx(box['K'], inv), f)})
+    for fi, (F, kind) in enumerate(g['Fs']):
         tf = true_fair(kd, F)
+        Fo = [[nm(s) for s in P] for P in F]
         e = {'F': F, 'kind': kind, 'true_fair': tf, 'every_path_fair': every_path_fair(kd, F), 'cases': [], 'bad': []}
-        # --- get_fair_states
+        # --- get_fair_states; then the caller edits the set he was given and asks again
+        again = {}
+
         def gfs(K):
-            Fa = mkF(F, kind)
+            Fa = mkF(Fo, kind)
             r = call(lambda: K.get_fair_states(Fa))
-            if r[0] == 'ok' and not F_intact(Fa, F):
+            if r[0] == 'ok' and not F_intact(Fa, Fo):
                 return ('err', 'other:the-F-argument-was-modified:%r' % (Fa,))
-            return canon(r, K)
+            c = canon(r, K, inv)
+            if c[0] == 'ok':
+                how = ('clear', 'half', 'add')[(fi + len(c[1])) % 3]
+                edit_returned_set(r[1], how)
+                r2 = call(lambda: K.get_fair_states(mkF(Fo, kind)))
+                again.update(edit=how, second=canon(r2, K, inv), same_object=(r2[0] == 'ok' and r2[1] is r[1]))
+            return c
         r, d = guarded(gfs)
-        ks = kripke_sx(box['K'])
+        ks = kripke_sx(box['K'], inv)
+        ksc = kripke_sx(box['K'].clone(), inv)      # what modelcheck(..., F=F) works on
         Fs = [sorted(P) for P in F]
-        e['fair'] = {'impl': r, 'changed': d, 'cmds': [['fair', ks, Fs], ['fairref', ks, Fs], ['scc', ks[0]]]}
+        e['fair'] = {'impl': r, 'changed': d, 'again': again, 'cmds': [['fair', ks, Fs], ['fairref', ks, Fs], ['scc', ks[0]]] + ([['fair', ksc, Fs]] if ksc != ks else [])}
+        e['clone_presentation_differs'] = ksc != ks
         # --- label_fair_states on a private clone (public method; the label must be fresh)
         def lfs(K):
             C = K.clone()
             before = set(C.labels())
-            r = call(lambda: C.label_fair_states(mkF(F, kind)))
+            own = canon(call(lambda: C.get_fair_states(mkF(Fo, kind))), C, inv)     # the fair set of THIS clone
+            r = call(lambda: C.label_fair_states(mkF(Fo, kind)))
             if r[0] != 'ok':
                 return r
             name = r[1]
-            return ('ok', [str(name), sorted(s for s in C.states() if name in C.labels(s)), name not in before,
-                           sorted(s for s in C.states() if (set(C.labels(s)) - {name}) != set(K.labels(s)))])
+            return ('ok', [str(name), sorted(inv(s) for s in C.states() if name in C.labels(s)), name not in before,
+                           sorted(inv(s) for s in C.states() if (set(C.labels(s)) - {name}) != set(K.labels(s))), own])
         r, d = guarded(lfs)
         e['label'] = {'impl': r, 'changed': d, 'cmd': ['labelfair', ks, Fs]}
-        # --- the three model checkers with F
+        # --- the three model checkers with F (formula as an object; for the forms listed in g['text'] also as a string)
         for i, (logic, f) in enumerate(g.get('forms', [])):
-            Fa = mkF(F, kind)
-            r, d = guarded(lambda K: impl_call(logic, K, f, 'F', Fa))
-            if r[0] == 'ok' and not F_intact(Fa, F):
+            Fa = mkF(Fo, kind)
+            r, d = guarded(lambda K: impl_call(logic, K, f, 'F', Fa, inv=inv))
+            if r[0] == 'ok' and not F_intact(Fa, Fo):
                 r = ('err', 'other:the-F-argument-was-modified:%r' % (Fa,))
-            e['cases'].append({'i': i, 'r': r, 'changed': d, 'ref': sorted(ref_check(kd, ref_form(f), [set(P) for P in F])),
-                               'cmd': model_cmd(logic, box['K'], f, F)})
+            c = {'i': i, 'r': r, 'changed': d, 'ref': sorted(ref_check(kd, ref_form(f), [set(P) for P in F])),
+                 'cmd': mcmd(logic, ksc, f, Fs)}
+            if i in text and text_ok(logic, f):
+                Fa = mkF(Fo, kind)
+                rt, dt = guarded(lambda K: impl_call(logic, K, f, 'F', Fa, inv=inv, text=text[i]))
+                if rt[0] == 'ok' and not F_intact(Fa, Fo):
+                    rt = ('err', 'other:the-F-argument-was-modified:%r' % (Fa,))
+                c.update(r_text=rt, changed_text=dt, parser=text[i])
+            e['cases'].append(c)
         for (logic, f) in g.get('bad', []):
-            r, d = guarded(lambda K: impl_call(logic, K, f, 'F', mkF(F, kind), objlang='CTLS'))
-            e['bad'].append({'logic': logic, 'f': f, 'r': r, 'changed': d, 'cmd': model_cmd(logic, box['K'], f, F)})
+            r, d = guarded(lambda K: impl_call(logic, K, f, 'F', mkF(Fo, kind), objlang='CTLS', inv=inv))
+            e['bad'].append({'logic': logic, 'f': f, 'r': r, 'changed': d, 'cmd': mcmd(logic, ksc, f, Fs)})
         res['perF'].append(e)
     return attach_model(res)
+
+
+# ----------------------------------------------------------------------------------------------
+# stream 'reuse': ONE formula object handed to modelcheck on a sequence of (structure, F) steps whose fresh fair label differs
+# ----------------------------------------------------------------------------------------------
+def fresh_label(kd):
+    labs = {a for ls in kd['L'].values() for a in ls}
+    name, i = 'fair', 0
+    while name in labs:
+        name = 'fair%d' % i
+        i += 1
+    return name
+
+
+def do_reuse(g):
+    """g = {'stream': 'reuse', 'steps': [{'kd', 'F' (None = no fairness), 'kind'}], 'forms': [(logic, f)]}.  Per form one library
+    object is built ONCE and passed to every step; next to it a fresh object of the same formula is asked on the same structure"""
+    steps = g['steps']
+    pres = []
+    for st in steps:
+        nm, inv = name_maps(st['kd'])
+        K = build_K(st['kd'])
+        pres.append(kripke_sx(K if st['F'] is None else K.clone(), inv))
+    res = {'stream': 'reuse', 'steps': steps, 'forms': []}
+    cmds = []
+    for (logic, f) in g['forms']:
+        L = lang_module(logic)
+        obj = to_py(f, L)
+        calls = []
+        for j, st in enumerate(steps):
+            kd, F, kind = st['kd'], st['F'], st.get('kind', 'list')
+            nm, inv = name_maps(kd)
+            K = build_K(kd)
+            snap = kripke_snapshot(K)
+            Fo = None if F is None else [[nm(s) for s in P] for P in F]
+
+            def ask(a):
+                if Fo is None:
+                    return canon(call(lambda: L.modelcheck(K, a)), K, inv)
+                return canon(call(lambda: L.modelcheck(K, a, F=mkF(Fo, kind))), K, inv)
+            r_re = ask(obj)
+            intact = call(lambda: tree_of(obj)) == ('ok', f)
+            changed = kripke_snapshot(K) != snap
+            r_fresh = ask(to_py(f, L))
+            Fs = None if F is None else [sorted(P) for P in F]
+            calls.append({'reused': r_re, 'fresh': r_fresh, 'object_intact': intact, 'K_changed': changed,
+                          'ref': sorted(ref_check(kd, ref_form(f), None if F is None else [set(P) for P in F]))})
+            cmds.append(mcmd(logic, pres[j], f, Fs))
+        res['forms'].append({'logic': logic, 'f': f, 'calls': calls})
+    outs = model_batch(cmds)
+    i = 0
+    for fo in res['forms']:
+        for c in fo['calls']:
+            c['out'] = outs[i]
+            i += 1
+    res['n_model_commands'] = len(cmds)
+    return res
+
+
+# ----------------------------------------------------------------------------------------------
+# stream 'long': structures with 1000-4000 states (longer than the interpreter's recursion limit), F given, answers in closed form
+# ----------------------------------------------------------------------------------------------
+def xdepth(f):
+    if f[0] in ('true', 'false', 'ap'):
+        return 0
+    return (1 if f[0] == 'X' else 0) + max(xdepth(g) for g in f[1:])
+
+
+def long_kd(p):
+    """lasso: chain 0 -> 1 -> ... -> N-1 -> a; clique {a, b} (a=N, b=N+1, both with self loops, a <-> b) = the only fair component;
+       optional exit x -> t (t a sink with a self loop only, in no fairness set: a size-1 SCC that is NOT truly fair, so
+       KF-C15-a has nothing to miss); optional tail b -> u_0 -> ... -> u_{M-1} -> z (z another such sink): unfair states after the
+       fair component.  ring: 0 -> 1 -> ... -> N-1 -> 0, every state with a self loop (one fair SCC of N states; KF-C15-a accepts it
+       whatever node is yielded first), F on state k.  Labels are uniform per segment.  -> (kd, F, segment of each state)"""
+    N, lab = p['N'], p['lab']
+    seg = {}
+    if p['shape'] == 'ring':
+        k = p['k']
+        R = [e for i in range(N) for e in ((i, i), (i, (i + 1) % N))]
+        for i in range(N):
+            seg[i] = 'ring'
+        seg[k] = 'k'
+        F = {'k': [[k]], 'k,k': [[k], [k]]}[p['F']]
+    else:
+        a, b = N, N + 1
+        R = [(i, i + 1) for i in range(N)] + [(a, a), (a, b), (b, a), (b, b)]
+        for i in range(N):
+            seg[i] = 'chain'
+        seg[a], seg[b] = 'a', 'b'
+        nxt = N + 2
+        if p.get('x') is not None:
+            t = nxt
+            nxt += 1
+            R += [(p['x'], t), (t, t)]
+            seg[t] = 't'
+        M = p.get('M') or 0
+        if M:
+            u = nxt
+            R += [(b, u)] + [(u + i, u + i + 1) for i in range(M)] + [(u + M, u + M)]
+            for i in range(M):
+                seg[u + i] = 'tail'
+            seg[u + M] = 'z'
+        F = {'a': [[a]], 'b': [[b]], 'a,b': [[a], [b]], 'ab': [[a, b]], 'a+chain': [[0, a, N // 2]], 'b,ab': [[b], [a, b]]}[p['F']]
+    if p.get('rev'):
+        R = R[::-1]
+    S = sorted(seg)
+    return {'S': S[::-1] if p.get('rev') else S, 'S0': [0], 'R': R, 'L': {s: list(lab.get(seg[s], [])) for s in S}}, F, seg
+
+
+def long_small(p, d):
+    """the member of the same family that is just long enough for a formula with d nested X"""
+    q = dict(p)
+    if p['shape'] == 'ring':
+        q['N'] = d + 3
+        q['k'] = q['N'] - 1
+    else:
+        x0 = d + 2
+        q['N'] = 2 * x0 + 1
+        if p.get('x') is not None:
+            q['x'] = x0
+        if p.get('M'):
+            q['M'] = d + 2
+    return q
+
+
+def long_lift(p, q):
+    """state of the long structure p -> its representative in the small member q of the family: a state and its representative
+    have the same segment and the same distance to the next special state (exit, end of the chain, sink, state k) up to the
+    cap 'further than any formula with d nested X can count'"""
+    N, N0 = p['N'], q['N']
+    m = {}
+    if p['shape'] == 'ring':
+        k = p['k']
+        for i in range(N):
+            m[i] = N0 - 1 - min((k - i) % N, N0 - 1)
+        return m
+    x, x0 = p.get('x'), q.get('x')
+    for i in range(N):
+        if x is None:
+            m[i] = N0 - 1 - min(N - 1 - i, N0 - 1)
+        elif i <= x:
+            m[i] = x0 - min(x - i, x0)
+        else:
+            m[i] = N0 - 1 - min(N - 1 - i, N0 - 1 - (x0 + 1))
+    m[N], m[N + 1] = N0, N0 + 1
+    nxt, nxt0 = N + 2, N0 + 2
+    if x is not None:
+        m[nxt] = nxt0
+        nxt, nxt0 = nxt + 1, nxt0 + 1
+    M, M0 = p.get('M') or 0, q.get('M') or 0
+    for i in range(M):
+        m[nxt + i] = nxt0 + M0 - 1 - min(M - 1 - i, M0 - 1)
+    if M:
+        m[nxt + M] = nxt0 + M0
+    return m
+
+
+def brief(v, exp):
+    """a result over thousands of states, summarised against the expected set"""
+    v, exp = set(v), set(exp)
+    return {'size': len(v), 'expected_size': len(exp), 'missing': sorted(exp - v)[:8], 'unexpected': sorted(v - exp)[:8]}
+
+
+def do_long(g):
+    """g = {'stream': 'long', 'p': family parameters, 'kind', 'forms': [(logic, f)]}.  Expected answers: the faithful model and the
+    reference are run on the small member of the family; if they agree there (the case is outside both known findings) the
+    common answer is lifted to the long structure segment by segment (closed form); otherwise the formula is skipped"""
+    p, kind = g['p'], g.get('kind', 'list')
+    kd, F, seg = long_kd(p)
+    K = kd_py(kd)
+    snap = kripke_snapshot(K)
+    states = sorted(seg)
+    closed = [s for s in states if seg[s] in ('chain', 'a', 'b', 'ring', 'k')]
+    res = {'stream': 'long', 'p': p, 'kind': kind, 'n_states': len(states), 'forms': [], 'n_model_commands': 0}
+    # the fair set
+    q = long_small(p, 0)
+    kd0, F0, seg0 = long_kd(q)
+    lift = long_lift(p, q)
+    tf0 = true_fair(kd0, F0)
+    ks0 = kripke_sx(kd_py(kd0))
+    m0 = sorted(ints(model_batch([['fair', ks0, [sorted(P) for P in F0]]])[0]))
+    if m0 != tf0 or sorted(s for s in states if lift[s] in tf0) != closed or any(seg[s] != seg0[lift[s]] for s in states):
+        raise RuntimeError('machinery: long family %r: small member fair set model %s / brute force %s / closed form do not fit' % (p, m0, tf0))
+    Fa = mkF(F, kind)
+    r = call(lambda: K.get_fair_states(Fa))
+    ok = r[0] == 'ok' and isinstance(r[1], set)
+    res['fair'] = {'impl': ('ok', brief(r[1], closed)) if ok else canon(r, K), 'agrees': ok and r[1] == set(closed),
+                   'changed': kripke_snapshot(K) != snap, 'F_intact': F_intact(Fa, F)}
+    for (logic, f) in g.get('forms', []):
+        d = xdepth(f)
+        q = long_small(p, d)
+        kd0, F0, seg0 = long_kd(q)
+        lift = long_lift(p, q)
+        K0 = kd_py(kd0)
+        ref0 = sorted(ref_check(kd0, ref_form(f), [set(P) for P in F0]))
+        m0 = model_obs(model_batch([mcmd(logic, kripke_sx(K0.clone()), f, [sorted(P) for P in F0])])[0])
+        res['n_model_commands'] += 1
+        rec = {'logic': logic, 'f': f, 'small': kdj(kd0), 'small_F': F0, 'small_model': m0, 'small_reference': ref0}
+        if m0 != ('ok', ref0):
+            rec['skipped'] = 'the small member of the family falls under a known finding (faithful model differs from the reference)'
+            res['forms'].append(rec)
+            continue
+        exp = [s for s in states if lift[s] in ref0]
+        L = lang_module(logic)
+        Fa = mkF(F, kind)
+        arg = ftext(f) if g.get('text') and text_ok(logic, f) else to_py(f, L)
+        rec['channel'] = 'text' if isinstance(arg, str) else 'object'
+        t0 = time.time()
+        r = call(lambda: L.modelcheck(K, arg, F=Fa))
+        rec['seconds'] = round(time.time() - t0, 2)
+        ok = r[0] == 'ok' and isinstance(r[1], set)
+        rec.update(impl=('ok', brief(r[1], exp)) if ok else canon(r, K), agrees=ok and r[1] == set(exp),
+                   changed=kripke_snapshot(K) != snap, F_intact=F_intact(Fa, F), expected_size=len(exp))
+        if rec['changed']:
+            K = kd_py(kd)
+        res['forms'].append(rec)
+    return res
 
 
 def attach_model(res):
@@ -490,8 +872,14 @@ class Judge:
         self.trivF = {'explored': 0, 'equals_unconstrained': 0, 'differs_known_finding': 0}
         self.none = {'explored': 0, 'agree': 0}
         self.outright = {'calls': 0, 'formulas_with_constants': 0, 'out_of_logic_TypeError': 0, 'label_calls': 0,
-                         'label_name_agrees_model': 0}
-        self.hist = {'states': {}, 'F_sets': {}, 'ops': {}, 'true_fair_kind': {}}
+                         'label_name_agrees_model': 0, 'asked_again_after_editing_the_returned_set': 0,
+                         'structures_whose_clone_iterates_differently': 0, 'text_channel_calls_with_F': 0,
+                         'text_channel_default_parser': 0}
+        self.hist = {'states': {}, 'F_sets': {}, 'ops': {}, 'true_fair_kind': {}, 'state_names': {}}
+        self.reuse_cov = {'formula_objects': 0, 'calls': 0, 'calls_after_a_step_with_another_fresh_label': 0, 'agree_reference': 0,
+                          'known_finding': 0, 'violations': 0}
+        self.long_cov = {'structures': 0, 'states': {}, 'get_fair_states_agree': 0, 'modelcheck_agree': {}, 'modelcheck_seconds_max': 0,
+                         'skipped_small_member_under_a_known_finding': 0, 'violations': 0}
 
     def viol(self, kind, what, data):
         self.nviol[kind] = self.nviol.get(kind, 0) + 1
@@ -514,12 +902,12 @@ class Judge:
         self.first_hit.setdefault(fid, sample)
 
     # ---- one (K, F): fair set and label
-    def fair_set(self, kd, e, o_fair, o_ref, o_scc, o_label):
+    def fair_set(self, kd, e, o_fair, o_ref, o_scc, o_label, o_fair_clone=None):
         R = self.R
         R.evaluations += 1
         self.fair['explored'] += 1
         F = e['F']
-        base = {'kripke': kd_json(kd), 'F': F, 'Fkind': e['kind']}
+        base = {'kripke': kdj(kd), 'F': F, 'Fkind': e['kind']}
         model = sorted(ints(o_fair))
         ref = sorted(ints(o_ref))
         tf = e['true_fair']
@@ -562,9 +950,23 @@ class Judge:
                           dict(obs, kf_a_predicate=kf_a_predicate(kd, F, [ints(c) for c in o_scc])))
                 self.fair['violations'] += 1
             if F and 0 < len(tf) < n:
-                R.nontriv(('fair', tuple(kd['S']), tuple(kd['R']), tuple(map(tuple, F))))
+                R.nontriv(('fair', tuple(kd['S']), tuple(kd['R']), tuple(map(tuple, F)), json.dumps(kd.get('names'))))
                 self.keep('fair_' + ('agrees' if impl == tf else 'known_finding_a'),
                           {'kripke_R': kd['R'], 'F': F, 'get_fair_states': impl, 'true_fair_set': tf, 'faithful_model': model})
+            ag = e['fair'].get('again') or {}
+            if ag:
+                self.outright['asked_again_after_editing_the_returned_set'] += 1
+                if ag['same_object'] or tuple(ag['second']) != tuple(r):
+                    self.viol('fair', 'get_fair_states(F) asked a second time, after the caller edited (%s) the set the first call had '
+                                      'returned to him, %s' % (ag['edit'], 'returns that very object again' if ag['same_object'] else
+                                                               'answers differently (the returned set is shared with the structure)'),
+                              dict(obs, caller_edit_of_first_result=ag['edit'], impl_second_call=ag['second'],
+                                   second_call_returned_the_same_object=ag['same_object']))
+                    self.fair['violations'] += 1
+        if o_fair_clone is not None and e.get('clone_presentation_differs'):
+            self.outright['structures_whose_clone_iterates_differently'] += 1
+            # modelcheck works on a clone: which finding a wrong answer is counted under follows the clone's fair set
+            impl_wrong = sorted(ints(o_fair_clone)) != tf
         # label_fair_states
         self.outright['label_calls'] += 1
         lr = e['label']['impl']
@@ -574,12 +976,15 @@ class Judge:
         elif lr[0] != 'ok':
             self.viol('label', 'label_fair_states raised %s' % lr[1], lobs)
         else:
-            name, labelled, fresh, others = lr[1]
+            name, labelled, fresh, others, own = lr[1]
+            # a clone may iterate its successor sets in another order than K (non-int states): KF-C15-a then gives the CLONE another
+            # fair set; the labelled states are compared with K's fair set whenever the two presentations coincide
+            fair_here = tuple(own) if e.get('clone_presentation_differs') else tuple(r)
             if not fresh:
                 self.viol('label', 'label_fair_states returned a label that already labels a state', lobs)
             elif others:
                 self.viol('label', 'label_fair_states changed other labels', lobs)
-            elif r[0] == 'ok' and labelled != r[1]:
+            elif fair_here[0] == 'ok' and labelled != fair_here[1]:
                 self.viol('label', 'label_fair_states labels other states than get_fair_states returns', lobs)
             elif str(o_label[1]) == name:
                 self.outright['label_name_agrees_model'] += 1
@@ -589,7 +994,7 @@ class Judge:
     def unconstrained(self, kd, p, o):
         self.none['explored'] += 1
         m = model_obs(o)
-        obs = {'kripke': kd_json(kd), 'logic': p['logic'], 'formula': p['f'], 'formula_str': fstr(p['f']), 'F': None,
+        obs = {'kripke': kdj(kd), 'logic': p['logic'], 'formula': p['f'], 'formula_str': fstr(p['f']), 'F': None,
                'impl_no_F': p['r_plain'], 'impl_F_None': p['r_none'], 'model': m, 'reference': p['ref']}
         if p['changed']:
             self.viol('none', '%s.modelcheck without fairness modified K' % p['logic'], dict(obs, changed=p['changed']))
@@ -616,7 +1021,7 @@ class Judge:
         self.h('ops', f[0] + f[1][0] if f[0] in ('A', 'E') else f[0])
         m = model_obs(o)
         r, ref = tuple(c['r']), c['ref']
-        obs = {'kripke': kd_json(kd), 'F': F, 'Fkind': e['kind'], 'logic': logic, 'formula': f, 'formula_str': fstr(f),
+        obs = {'kripke': kdj(kd), 'F': F, 'Fkind': e['kind'], 'logic': logic, 'formula': f, 'formula_str': fstr(f),
                'impl': r, 'model': m, 'reference': ref, 'reference_unconstrained': p['ref'], 'true_fair_set': e['true_fair'],
                'impl_fair_set_wrong': impl_fair_wrong}
         if e['every_path_fair']:
@@ -630,6 +1035,26 @@ class Judge:
             st['violations'] += 1
             return self.viol('mc', '%s.modelcheck(K,f,F=F) raised / returned a non-set for a well-formed %s formula: %s'
                              % (logic, logic, r[1]), obs)
+        if 'r_text' in c:
+            self.outright['text_channel_calls_with_F'] += 1
+            if c['parser'] == 'default':
+                self.outright['text_channel_default_parser'] += 1
+            rt = tuple(c['r_text'])
+            tobs = dict(obs, channel='text', parser=c['parser'], formula_text=ftext(f), impl=rt, impl_formula_object=r)
+            if c['changed_text']:
+                st['violations'] += 1
+                self.viol('mc', '%s.modelcheck(K,<text>,F=F) modified K (%s)' % (logic, c['changed_text']), dict(tobs, changed=c['changed_text']))
+            elif rt[0] != 'ok':
+                st['violations'] += 1
+                self.viol('mc', '%s.modelcheck(K,%r,F=F) raised / returned a non-set for the text of a well-formed %s formula: %s'
+                          % (logic, ftext(f), logic, rt[1]), tobs)
+            elif rt[1] != ref and rt != m:
+                st['violations'] += 1
+                self.viol('mc', '%s.modelcheck(K,%r,F=F), formula given as TEXT, differs from the fair semantics AND from the faithful '
+                                'model of the coded reduction (not KF-C15-a/b)' % (logic, ftext(f)), tobs)
+            elif rt != r:
+                st['violations'] += 1
+                self.viol('mc', '%s.modelcheck(K,f,F=F) answers differently for the formula as TEXT and as an OBJECT' % logic, tobs)
         differs_plain = ref != p['ref']
         if differs_plain:
             st['fair_answer_differs_from_unconstrained'] += 1
@@ -653,7 +1078,7 @@ class Judge:
             return self.viol('mc', '%s.modelcheck(K,f,F=F) differs from the fair semantics AND from the faithful model of the '
                                    'coded reduction (not KF-C15-a/b)' % logic, obs)
         if nontrivial:
-            R.nontriv(('mc', logic, tuple(kd['S']), tuple(kd['R']), json.dumps(kd_json(kd)['L'], sort_keys=True), tuple(map(tuple, F)), f))
+            R.nontriv(('mc', logic, tuple(kd['S']), tuple(kd['R']), json.dumps(kdj(kd)['L'], sort_keys=True), tuple(map(tuple, F)), f, json.dumps(kd.get('names'))))
             if differs_plain and F and 0 < len(e['true_fair']) < len(succ_of(kd)):
                 cls = 'agrees' if r[1] == ref else ('known_finding_a' if impl_fair_wrong else 'known_finding_b')
                 self.keep('%s_%s' % (logic, cls),
@@ -663,7 +1088,7 @@ class Judge:
     def bad(self, kd, e, c, o):
         self.outright['calls'] += 1
         r = tuple(c['r'])
-        obs = {'kripke': kd_json(kd), 'F': e['F'], 'Fkind': e['kind'], 'logic': c['logic'], 'formula': c['f'],
+        obs = {'kripke': kdj(kd), 'F': e['F'], 'Fkind': e['kind'], 'logic': c['logic'], 'formula': c['f'],
                'formula_str': fstr(c['f']), 'impl': r, 'model': model_obs(o), 'out_of_logic': True}
         if c['changed']:
             self.viol('bad', '%s.modelcheck(K,f,F=F) on an out-of-logic formula modified K' % c['logic'], dict(obs, changed=c['changed']))
@@ -674,18 +1099,108 @@ class Judge:
             self.outright['out_of_logic_TypeError'] += 1
 
 
+    # ---- one formula object on a sequence of (structure, F)
+    def reuse(self, res):
+        R = self.R
+        steps = res['steps']
+        labels = [fresh_label(st['kd']) if st['F'] is not None else None for st in steps]
+        for fo in res['forms']:
+            logic, f = fo['logic'], fo['f']
+            self.reuse_cov['formula_objects'] += 1
+            reported = False
+            for j, c in enumerate(fo['calls']):
+                R.evaluations += 1
+                self.reuse_cov['calls'] += 1
+                earlier = {l for l in labels[:j] if l is not None}
+                crossing = labels[j] is not None and bool(earlier - {labels[j]})
+                if crossing:
+                    self.reuse_cov['calls_after_a_step_with_another_fresh_label'] += 1
+                    R.nontriv(('reuse', logic, f, j, json.dumps([[kdj(st['kd']), st['F']] for st in steps[:j + 1]], sort_keys=True)))
+                m = model_obs(c['out'])
+                r, fresh, ref = tuple(c['reused']), tuple(c['fresh']), c['ref']
+                what = None
+                if c['K_changed']:
+                    what = 'modified K'
+                elif not c['object_intact']:
+                    what = 'modified the formula object it was given'
+                elif r[0] != 'ok':
+                    what = 'raised / returned a non-set: %s' % r[1]
+                elif r != fresh:
+                    what = 'answers differently for a formula object that was used before (fresh fair label then: %s, now: %s) and for a ' \
+                           'fresh object of the same formula' % (sorted(l for l in earlier), labels[j])
+                elif r[1] != ref and r != m:
+                    what = 'differs from the fair semantics AND from the faithful model of the coded reduction (not KF-C15-a/b)'
+                if what is None:
+                    self.reuse_cov['agree_reference' if r[1] == ref else 'known_finding'] += 1
+                    continue
+                self.reuse_cov['violations'] += 1
+                if not reported:
+                    reported = True
+                    self.viol('reuse', '%s.modelcheck(K%d,f,F=%s), f ONE formula object handed to %d structures in turn, at step %d %s'
+                              % (logic, j + 1, 'F' if steps[j]['F'] is not None else 'None', len(steps), j + 1, what),
+                              {'stream': 'reuse', 'steps': [{'kripke': kdj(st['kd']), 'F': st['F'], 'kind': st.get('kind', 'list')} for st in steps],
+                               'fresh_fair_label_per_step': labels, 'logic': logic, 'formula': f, 'formula_str': fstr(f), 'failing_step': j + 1,
+                               'impl_reused_object': r, 'impl_fresh_object': fresh, 'model': m, 'reference': ref})
+
+    # ---- long structures
+    def long(self, res):
+        R = self.R
+        p = res['p']
+        self.long_cov['structures'] += 1
+        b = '%d-%d' % (res['n_states'] // 1000 * 1000, res['n_states'] // 1000 * 1000 + 999)
+        self.long_cov['states'][b] = self.long_cov['states'].get(b, 0) + 1
+        base = {'stream': 'long', 'p': p, 'Fkind': res['kind'], 'n_states': res['n_states']}
+        fr = res['fair']
+        R.evaluations += 1
+        if fr['agrees'] and not fr['changed'] and fr['F_intact']:
+            self.long_cov['get_fair_states_agree'] += 1
+            R.nontriv(('long-fair', json.dumps(p, sort_keys=True)))
+        else:
+            self.long_cov['violations'] += 1
+            why = 'modified K' if fr['changed'] else 'modified F' if not fr['F_intact'] else \
+                ('raised %s' % fr['impl'][1] if fr['impl'][0] != 'ok' else 'is not the fair set (closed form: every state that reaches the fair 2-clique / ring)')
+            self.viol('long', 'get_fair_states(F) on a %d-state structure (%s) %s' % (res['n_states'], p['shape'], why), dict(base, impl=fr['impl']))
+        for rec in res['forms']:
+            R.evaluations += 1
+            if rec.get('skipped'):
+                self.long_cov['skipped_small_member_under_a_known_finding'] += 1
+                continue
+            self.long_cov['modelcheck_seconds_max'] = max(self.long_cov['modelcheck_seconds_max'], rec['seconds'])
+            if rec['agrees'] and not rec['changed'] and rec['F_intact']:
+                d = self.long_cov['modelcheck_agree']
+                d[rec['logic']] = d.get(rec['logic'], 0) + 1
+                if 0 < rec['expected_size'] < res['n_states']:
+                    R.nontriv(('long-mc', rec['logic'], rec['f'], json.dumps(p, sort_keys=True)))
+                continue
+            self.long_cov['violations'] += 1
+            why = 'modified K' if rec['changed'] else 'modified F' if not rec['F_intact'] else \
+                ('raised %s' % rec['impl'][1] if rec['impl'][0] != 'ok' else 'differs from the closed-form answer (the common answer of the faithful '
+                 'model and of the reference on the small member of the family, lifted segment by segment)')
+            self.viol('long', '%s.modelcheck(K,f,F=F) on a %d-state structure (%s) %s' % (rec['logic'], res['n_states'], p['shape'], why),
+                      dict(base, logic=rec['logic'], formula=rec['f'], formula_str=fstr(rec['f']), channel=rec['channel'], impl=rec['impl'],
+                           small_member=rec['small'], small_F=rec['small_F'], small_answer=rec['small_reference']))
+
+
 def judge_all(R, J, results):
     """classify the observations of all groups (the model answers were attached by the workers)"""
     n = 0
     for res in results:
-        kd = res['kd']
         n += res['n_model_commands']
+        if res.get('stream') == 'reuse':
+            J.reuse(res)
+            continue
+        if res.get('stream') == 'long':
+            J.long(res)
+            continue
+        kd = res['kd']
+        J.h('state_names', 'int 0..n-1' if not kd.get('names') else '+'.join(sorted({x[0] for x in kd['names']})))
         for p in res['plain']:
             J.unconstrained(kd, p, p['out'])
         for e in res['perF']:
-            o_fair, o_ref, o_scc = e['fair']['outs']
+            o_fair, o_ref, o_scc = e['fair']['outs'][:3]
+            o_fair_clone = e['fair']['outs'][3] if len(e['fair']['outs']) > 3 else None
             J.model_fair = ints(o_fair)
-            wrong = J.fair_set(kd, e, o_fair, o_ref, o_scc, e['label']['out'])
+            wrong = J.fair_set(kd, e, o_fair, o_ref, o_scc, e['label']['out'], o_fair_clone)
             for c in e['cases']:
                 J.mc(kd, e, res['plain'][c['i']], c, c['out'], wrong)
             for c in e['bad']:
@@ -872,6 +1387,126 @@ def build_groups(R):
         groups.append({'kd': kd, 'Fs': [(Fx, rng.choice(KINDS)) for Fx in Fs], 'forms': forms})
         nf += 1
     R.cov['clustered_cases'] = nf
+    # the text channel with F: a third of the forms of every group above is ALSO passed as a string (own generator: the cases above
+    # stay what they were)
+    trng = random.Random(R.seed + 1501)
+    for gi, g in enumerate(groups):
+        if g.get('forms'):
+            g['text'] = {i: ('default' if trng.random() < 0.02 else 'shared') for i in range(len(g['forms'])) if gi < 3 or trng.random() < (0.34 if T else 0.2)}
+    return groups + more_groups(R, pools, quota)
+
+
+LONG_LABS = {'chain': [[], ['q'], ['q'], ['p', 'q']], 'a': [['p'], ['p', 'q'], ['q']], 'b': [[], ['q'], ['p', 'q']], 't': [[], ['p'], ['q']],
+             'tail': [[], ['q']], 'z': [[], ['p'], ['p', 'q']], 'ring': [[], ['q'], ['q']], 'k': [['p'], ['p', 'q']]}
+# formulas that the LTL / CTL* checkers decide within about a second on a 1100-state structure
+LONG_LTL = [('A', ('F', P_)), ('A', ('G', Q_)), ('A', ('X', Q_)), ('A', ('U', Q_, P_)), ('A', ('R', P_, Q_)), ('A', ('not', P_)),
+            ('A', ('F', ('not', Q_))), ('A', ('or', P_, ('X', Q_)))]
+LONG_CTLS = [('E', GF(P_)), ('A', FG(Q_)), ('E', ('and', ('X', P_), ('X', Q_))), ('A', ('or', ('X', P_), ('X', ('not', P_)))),
+             ('E', ('and', ('F', P_), ('G', Q_))), ('A', ('F', ('E', ('X', P_)))), ('E', ('G', ('E', ('F', P_))))]
+
+
+def long_params(rng, lo, hi, ring_share=0.25, tail=True):
+    lab = {k: rng.choice(v) for k, v in LONG_LABS.items()}
+    if rng.random() < ring_share:
+        N = rng.randint(lo, hi)
+        return {'shape': 'ring', 'N': N, 'k': rng.randrange(N), 'F': rng.choice(['k', 'k', 'k,k']), 'lab': lab, 'rev': rng.random() < 0.3}
+    N = rng.randint(lo, hi)
+    return {'shape': 'lasso', 'N': N, 'x': rng.randint(N // 4, 3 * N // 4) if rng.random() < 0.6 else None,
+            'M': rng.randint(lo, hi) if tail and rng.random() < 0.4 else 0,
+            'F': rng.choice(['a', 'a', 'b', 'a,b', 'ab', 'a+chain', 'b,ab']), 'lab': lab, 'rev': rng.random() < 0.3}
+
+
+def with_labels(rng, kd, how):
+    """the same structure whose labels already use the names the library would pick for its fair label"""
+    kd = dict(kd)
+    states = sorted(succ_of(kd))
+    L = {s: [a for a in kd['L'].get(s, []) if not a.startswith('fair')] for s in states}
+    for name in {'plain': [], 'fair': ['fair'], 'fair+fair0': ['fair', 'fair0']}[how]:
+        for s in rng.sample(states, rng.randint(1, len(states))):
+            L[s] = L[s] + [name]
+    kd['L'] = L
+    return kd
+
+
+def base_case(rng):
+    x = rng.random()
+    if x < 0.35:
+        c = kfa_free_case(rng, rng.randint(3, 5))
+        if c is not None:
+            return c
+    if x < 0.65:
+        return clustered_case(rng)
+    kd = rand_kripke(rng, rng.randint(1, 5))
+    return kd, rand_F(rng, kd['S'], foreign=False)
+
+
+def more_groups(R, pools, quota):
+    """streams added after the white-box audit of this check; own generator"""
+    rng = random.Random(R.seed + 1502)
+    T = R.thorough
+    groups = []
+
+    def forms_for(m, extra=1):
+        # the LTL / CTL* checkers cost 10-30 ms a call: one template each, two of CTL, and `extra` random formulas
+        fs = [('CTL', f) for f in pick(rng, pools['CTL'], 1, 1)]
+        for l in ('LTL', 'CTLS'):
+            fs += [(l, f) for f in (pick(rng, pools[l], 1, 0) if rng.random() < 0.5 else pick(rng, pools[l], 0, 1))]
+        fs += [(l, noconst(f)) for l, f in rng.sample(small_random_formulas(rng, 1, 3), extra)]
+        return [(l, rename(f, m)) for l, f in fs] if m else fs
+
+    def texts(forms, p=0.7):
+        return {i: ('default' if rng.random() < 0.03 else 'shared') for i in range(len(forms)) if rng.random() < p}
+    # (g) states that are not 0..n-1: other ints (negative, > 2**61, colliding in small hash tables), strings, and mutually
+    #     UNORDERABLE mixtures (int / str / tuple / frozenset / None / float / bytes)
+    for w in witness_groups():
+        kd = dict(w['kd'], names=make_names(rng, len(w['kd']['S']), 'mixed'))
+        groups.append(dict(w, kd=kd, text={i: ('default' if i % 4 == 0 else 'shared') for i in range(len(w['forms']))}))
+    ng = 0
+    for i in range(1200 if T else 120):
+        kd0, F = base_case(rng)
+        kd, m = variant(rng, kd0)
+        kd['names'] = make_names(rng, len(succ_of(kd)), rng.choice(NAME_STYLES))
+        forms = forms_for(m)
+        Fs = [F, rand_F(rng, kd['S'])] + ([list(reversed(F))] if T else [])
+        g = {'kd': kd, 'Fs': [(Fx, rng.choice(KINDS)) for Fx in Fs], 'forms': forms, 'text': texts(forms)}
+        if rng.random() < 0.05:
+            g['bad'] = rng.sample(BAD, 2)
+        groups.append(g)
+        ng += 1
+    R.cov['renamed_state_cases'] = ng
+    # (h) ONE formula object on a sequence of structures whose fresh fair label differs (fair / fair0 / fair1), with and without F
+    nh = 0
+    for i in range(500 if T else 60):
+        kd0, F0 = base_case(rng)
+        hows = ['plain', rng.choice(['fair', 'fair+fair0'])] + [rng.choice(['plain', 'fair', 'fair+fair0']) for _ in range(rng.choice([0, 0, 1, 2]))]
+        rng.shuffle(hows)
+        steps = []
+        names = make_names(rng, len(succ_of(kd0)), rng.choice(NAME_STYLES)) if rng.random() < 0.25 else None
+        for how in hows:
+            if steps and rng.random() < 0.2:
+                kd1, F1 = base_case(rng)
+                nm1 = None
+            else:
+                kd1, F1, nm1 = kd0, F0, names
+            kd1 = with_labels(rng, kd1, how)
+            if nm1:
+                kd1['names'] = nm1
+            F = None if rng.random() < 0.12 else (F1 if rng.random() < 0.7 else rand_F(rng, kd1['S'], foreign=False))
+            steps.append({'kd': kd1, 'F': F, 'kind': rng.choice(KINDS)})
+        m = rng.choice([None, None, None, {'p': 'fair'}, {'q': 'fair0'}])
+        groups.append({'stream': 'reuse', 'steps': steps, 'forms': forms_for(m, extra=1 if T or rng.random() < 0.3 else 0)})
+        nh += 1
+    R.cov['formula_object_reuse_sequences'] = nh
+    # (i) long structures (longer than the interpreter's recursion limit), closed-form answers outside both known findings
+    for i in range(40 if T else 10):
+        p = long_params(rng, 1100, 6000 if T else 3500)
+        forms = [('CTL', f) for f in pick(rng, pools['CTL'], 2, 2)]
+        groups.append({'stream': 'long', 'p': p, 'kind': rng.choice(KINDS), 'forms': forms, 'text': rng.random() < 0.3})
+    for i in range(16 if T else 6):
+        logic = ('LTL', 'CTLS')[i % 2]
+        p = long_params(rng, 1040, 1150, ring_share=0.15, tail=False)
+        f = rng.choice(LONG_LTL if logic == 'LTL' else LONG_CTLS)
+        groups.append({'stream': 'long', 'p': p, 'kind': rng.choice(KINDS), 'forms': [(logic, f)], 'text': rng.random() < 0.3})
     return groups
 
 
@@ -904,16 +1539,33 @@ def rewriting_tie(R):
         o = to_py(f, L)
         s0 = str(o)
         r = call(lambda: tree_of(o.get_equivalent_non_fair_formula(a)))
-        obs.append((logic, f, a, r, str(o) == s0))
+        # the SAME object rewritten again for another fair label (what happens when one formula object is model checked on two
+        # structures whose fresh label differs): the second rewriting must be the one for the second label
+        a2 = rng.choice([x for x in ('fair', 'fair0', 'fair1', 'x') if x != a])
+        r2 = call(lambda: tree_of(o.get_equivalent_non_fair_formula(a2)))
+        obs.append((logic, f, a, r, str(o) == s0, a2, r2))
         cmds.append(['unfairctl' if logic == 'CTL' else 'unfairctls', Q(a), fsx(f)])
+        cmds.append(['unfairctl' if logic == 'CTL' else 'unfairctls', Q(a2), fsx(f)])
     outs = model_batch_parallel(cmds)
-    nbad = 0
-    for (logic, f, a, r, same), o in zip(obs, outs):
-        R.evaluations += 1
+    nbad = nagain = 0
+
+    def mres(logic, o):
         if logic == 'CTL':
-            m = ('ok', fparse(o[1])) if o[0] == 'some' else ('err', 'TypeError')
-        else:
-            m = ('ok', fparse(o))
+            return ('ok', fparse(o[1])) if o[0] == 'some' else ('err', 'TypeError')
+        return ('ok', fparse(o))
+    for k, (logic, f, a, r, same, a2, r2) in enumerate(obs):
+        o = outs[2 * k]
+        R.evaluations += 1
+        m = mres(logic, o)
+        m2 = mres(logic, outs[2 * k + 1])
+        if tuple(r) == m and same and tuple(r2) != m2:
+            nagain += 1
+            if nagain <= 10:
+                R.violation('get_equivalent_non_fair_formula(%r) on a formula object that had been rewritten for %r before is not the rewriting '
+                            'for %r (the first rewriting agrees with the model: the object remembers)' % (a2, a, a2),
+                            {'correspondence': 'fairness rewriting, one object rewritten twice', 'logic': logic, 'formula': f, 'formula_str': fstr(f),
+                             'fair_atoms': [a, a2], 'impl_first': r, 'impl_second': r2, 'model_second': m2})
+            continue
         if tuple(r) != m or not same:
             nbad += 1
             if nbad <= 10:
@@ -922,7 +1574,8 @@ def rewriting_tie(R):
                              'fair_atom': a, 'impl': r, 'model': m}, no_input=same)
         else:
             R.count('rewriting_tie_agree')
-    R.cov['rewriting_tie'] = {'compared': len(items), 'differences': nbad}
+    R.cov['rewriting_tie'] = {'compared': len(items), 'differences': nbad, 'same_object_rewritten_for_a_second_label': len(items),
+                              'second_rewriting_differs': nagain}
 
 
 # ----------------------------------------------------------------------------------------------
@@ -966,7 +1619,7 @@ def evolving_structures(R):
             bad += 1
             if bad <= 5:
                 R.violation('get_fair_states after the caller edited K differs from the faithful model on the current structure',
-                            {'stream': 'evolving', 'kripke': kd_json(kd), 'F': F, 'caller_edits_so_far': trace, 'impl': r, 'model_on_current_structure': m})
+                            {'stream': 'evolving', 'kripke': kdj(kd), 'F': F, 'caller_edits_so_far': trace, 'impl': r, 'model_on_current_structure': m})
         elif trace:
             R.nontriv(('evolving', case, len(trace)))
     R.cov['evolving_structures'] = {'get_fair_states_calls': len(meta), 'differences': bad}
@@ -983,13 +1636,33 @@ def run(R):
               'KF-C15-a cannot bite (truly fair SCCs have >= 2 nodes, each with a self loop) and whose fair set is proper, so that the '
               'reductions are exercised on correct fair sets; a share of the structures is presented with '
               'shuffled insertion order and with labels named fair/fair0/fair1 (used by the formula or not); identifier atoms only; Boolean '
-              'constants occur in a minority of formulas and are read as atoms (true = holds everywhere, false = nowhere). Non-trivial: F non-empty and the true fair '
+              'constants occur in a minority of formulas and are read as atoms (true = holds everywhere, false = nowhere). '
+              'TEXT CHANNEL: for a share of the (K, F, formula) of every stream (20% quick / 34% thorough; ~60% in the renamed stream) the '
+              'formula is ALSO passed as a string together with F (explicit parser object, or parser=None for a few) to each of the three '
+              'modelcheck and classified like the object answer; text and object answers must coincide. ASK AGAIN: after every '
+              'get_fair_states the caller edits the returned set (clear / drop half / add a foreign element) and asks again on the same '
+              'object: same answer, another set object; the later label_fair_states / modelcheck calls of the group run on that same '
+              'structure. RENAMED STATES: random / clustered / KF-C15-a-free / witness structures whose states are other ints '
+              '(negative, > 2**61, colliding modulo 8), strings, or mutually unorderable mixtures of int, str, tuple, frozenset, float, '
+              'bytes (pairs that collide under str() or hash()); reference and model work on 0..n-1, the model gets the presentation read back '
+              'from the live object (from K.clone() for calls with F, because KF-C15-a depends on the iteration order inside the clone). '
+              'FORMULA OBJECT RE-USE: one formula object per (logic, formula) handed to modelcheck on 2-4 (structure, F) steps whose '
+              'fresh fair label differs (labels fair / fair0 already used by the structure or not; F=None steps in between); every answer is '
+              'classified and must equal the answer for a fresh object; in the rewriting tie each object is rewritten a second time '
+              'for another fair label. LONG STRUCTURES: 1000-6000 states (more than the recursion limit): a chain into a fair 2-clique '
+              'with self loops, optional exit to an unfair sink in the middle, optional long unfair tail behind the clique, or a ring with '
+              'self loops; F inside the clique / on one ring state, so that neither known finding applies; expected = the common answer of '
+              'faithful model and reference on the small member of the same family, lifted segment by segment (a state and its '
+              'representative agree on segment and on the distance to the next special state up to X-depth+2; formulas on which model '
+              'and reference differ on the small member are skipped); get_fair_states and CTL on every one, LTL / CTL* on ~1100 states. '
+              'Non-trivial: F non-empty and the true fair '
               'set neither empty nor everything, or the fair reference answer differs from the unconstrained one; distinct by '
               '(structure, F[, logic, formula])')
     R.cov['explanation'] = EXPLANATION
     rewriting_tie(R)
     evolving_structures(R)
     groups = build_groups(R)
+    groups.sort(key=lambda g: g.get('stream') != 'long')       # the few slow ones first (the pool hands groups out in order)
     t0 = time.time()
     results = run_groups(groups, jobs=min(16, os.cpu_count() or 1))
     t1 = time.time()
@@ -1004,6 +1677,8 @@ def run(R):
     R.cov['F_None'] = J.none
     R.cov['asserted_outright'] = J.outright
     R.cov['distribution'] = J.hist
+    R.cov['formula_object_reuse'] = J.reuse_cov
+    R.cov['long_structures'] = J.long_cov
     tot = {k: J.fair.get(k, 0) + sum(J.mcs[l].get(k, 0) for l in J.mcs) for k in ('explored', 'agree_reference', KFA, KFB)}
     R.cov['classification_total'] = {'explored_inputs': tot['explored'], 'agree_with_reference_outright': tot['agree_reference'],
                                      'under_' + KFA: tot[KFA], 'under_' + KFB: tot[KFB],
@@ -1031,10 +1706,55 @@ def detup(x):
 
 def replay(R, data):
     d = data['data']
+    if d.get('stream') == 'reuse':
+        g = {'stream': 'reuse', 'forms': [(d['logic'], detup(d['formula']))],
+             'steps': [{'kd': kd_from(st['kripke']), 'F': st['F'], 'kind': st.get('kind', 'list')} for st in d['steps']]}
+        res = do_group(g)
+        J = Judge(R)
+        judge_all(R, J, [res])
+        print('formula  :', d['logic'], fstr(g['forms'][0][1]), ' - ONE object, handed to every step in turn')
+        for j, (st, c) in enumerate(zip(g['steps'], res['forms'][0]['calls'])):
+            print('step %d: structure %s  F=%s  (fresh fair label: %s)' % (j + 1, st['kd'], st['F'], fresh_label(st['kd']) if st['F'] is not None else '-'))
+            print('   impl, the re-used object:', c['reused'], '  impl, a fresh object:', c['fresh'], '  faithful model:', model_obs(c['out']),
+                  '  fair reference:', c['ref'], '  object intact:', c['object_intact'], '  K changed:', c['K_changed'])
+        print('classification:', J.reuse_cov)
+        return
+    if d.get('stream') == 'long':
+        g = {'stream': 'long', 'p': d['p'], 'kind': d.get('Fkind', 'list'), 'text': d.get('channel') == 'text',
+             'forms': [(d['logic'], detup(d['formula']))] if 'formula' in d else []}
+        res = do_group(g)
+        J = Judge(R)
+        judge_all(R, J, [res])
+        print('family   :', d['p'], ' states:', res['n_states'], ' F (%s):' % g['kind'], long_kd(d['p'])[1])
+        print('get_fair_states: impl', res['fair']['impl'], ' agrees with the closed form:', res['fair']['agrees'], ' K changed:', res['fair']['changed'])
+        for rec in res['forms']:
+            print('formula  :', rec['logic'], fstr(rec['f']), '(%s)' % rec.get('channel', '-'))
+            print('   small member of the family:', rec['small'], 'F', rec['small_F'], ' faithful model', rec['small_model'], ' reference', rec['small_reference'])
+            print('   ' + ('skipped: ' + rec['skipped'] if rec.get('skipped') else 'impl on the long structure vs lifted answer: %s  agrees: %s  K changed: %s'
+                           % (rec['impl'], rec['agrees'], rec['changed'])))
+        print('classification:', J.long_cov)
+        return
+    if str(d.get('correspondence', '')).startswith('fairness rewriting') and 'formula' in d:
+        f = detup(d['formula'])
+        o = to_py(f, lang_module(d['logic']))
+        atoms = d.get('fair_atoms') or [d['fair_atom']]
+        cmd = 'unfairctl' if d['logic'] == 'CTL' else 'unfairctls'
+        print('formula  :', d['logic'], fstr(f), ' - ONE object, rewritten for', atoms, 'in turn')
+        differs = False
+        for a in atoms:
+            r = call(lambda: tree_of(o.get_equivalent_non_fair_formula(a)))
+            mo = model_batch([[cmd, Q(a), fsx(f)]])[0]
+            m = (('ok', fparse(mo[1])) if mo[0] == 'some' else ('err', 'TypeError')) if d['logic'] == 'CTL' else ('ok', fparse(mo))
+            print('  fair label %r: impl %s' % (a, r))
+            print('  %s  model %s' % (' ' * len(repr(a)), m))
+            differs = differs or tuple(r) != m
+        if differs:
+            R.violation('replayed', d)
+        return
     if 'kripke' not in d:
         print('nothing to replay (proof gate entry):', data.get('what'))
         return
-    kd = kd_from_json(d['kripke'])
+    kd = kd_from(d['kripke'])
     F = d.get('F')
     if d.get('stream') == 'evolving':
         K = kd_py(kd)
@@ -1056,6 +1776,8 @@ def replay(R, data):
     if 'formula' in d:
         key = 'bad' if d.get('out_of_logic') else 'forms'
         g[key] = [(d['logic'], detup(d['formula']))]
+        if key == 'forms':
+            g['text'] = {0: d.get('parser', 'shared')}
     res = do_group(g)
     J = Judge(R)
     judge_all(R, J, [res])
@@ -1068,9 +1790,14 @@ def replay(R, data):
         o = e['fair']['outs']
         print('get_fair_states: impl', e['fair']['impl'], ' faithful model', sorted(ints(o[0])), ' fairref', sorted(ints(o[1])),
               ' brute force', e['true_fair'], ' K changed:', e['fair']['changed'])
+        print('   asked again after the caller edited the returned set:', e['fair'].get('again'))
+        if kd.get('names'):
+            print('   (states are shown as 0..n-1; in the library call they are', [dec_name(x) for x in kd['names']], ')')
         print('label_fair_states:', e['label']['impl'], ' model label', e['label']['out'][1], ' K changed:', e['label']['changed'])
         for c in e['cases'] + e['bad']:
             print('  modelcheck with F: impl', c['r'], ' faithful model', model_obs(c['out']), ' fair reference', c.get('ref', '-'),
                   ' K changed:', c['changed'])
+            if 'r_text' in c:
+                print('  modelcheck with F, formula as TEXT (%s parser): impl' % c['parser'], c['r_text'], ' K changed:', c['changed_text'])
     print('classification:', {'fair_set': J.fair, 'modelcheck': {l: v for l, v in J.mcs.items() if v['explored']},
                               'violations': J.nviol, 'known findings': J.hits})
